@@ -131,6 +131,18 @@ claim("C13",
       "keyword/tag extraction from templates and ET.SubElement calls (finite string sets over literal loops) + "
       "set comparison against reader key census + ast pattern rules", "§3 C13")
 
+claim("C08",
+      "Clause-level: inclusive bounds and verbatim date lists of the iteration front-ends; sibling agreement of the "
+      "two iter() front-ends and of Orbit.propagate/iter; direction symmetry of every date-marching loop; padding of "
+      "tables before interpolation; `dates` used through iteration only; and the ownership rules that make propagation a "
+      "pure function of (initial orbit, date): every propagate() result is fresh (abstract interpretation over the "
+      "sharing idioms: shallow _data copies, numpy views), no store or in-place mutation reaches the initial orbit or "
+      "an argument through an alias (reaching definitions), orbit setters snapshot their source, Ephem drops its "
+      "interpolator when its points change, copy() forwards every constructor parameter.",
+      "Not decided: numeric equality of iterated and directly propagated states. Known findings: backward ranges "
+      "(D19), short spans in KeplerNum (D20), Sgp4 results sharing one Cov (D21, pinned by the suite).",
+      "ownership/freshness abstract interpretation on reaching definitions + sibling comparison + ast pattern rules", "§3 C08")
+
 NOT_YET = "check not built yet in this revision; rules designed in DESIGN.md §3 — claimed once its checker is committed"
 
 ALL = [f"C{i:02d}" for i in range(1, 21)]
